@@ -33,16 +33,17 @@ const (
 	bErrorWithData // error together with a non-empty result
 	bPanicString
 	bPanicError
-	bPanicAfterSet // unmarshal: sets the value, then panics; marshal: same as bPanicString
-	bNothing       // no error and an empty result: (nil, nil) / value left untouched
-	bNilReceiver   // marshal on a nil *P
-	bErrorEmptied  // unmarshal: error, and the receiver reset to an empty but non-nil value (slice and map kinds)
-	bEmptied       // unmarshal: no error, receiver set to an empty but non-nil value (slice and map kinds)
-	bPanicBadError // panics with an error value whose own Error method cannot be called (a typed nil pointer)
+	bPanicAfterSet  // unmarshal: sets the value, then panics; marshal: same as bPanicString
+	bNothing        // no error and an empty result: (nil, nil) / value left untouched
+	bNilReceiver    // marshal on a nil *P
+	bErrorEmptied   // unmarshal: error, and the receiver reset to an empty but non-nil value (slice and map kinds)
+	bEmptied        // unmarshal: no error, receiver set to an empty but non-nil value (slice and map kinds)
+	bPanicBadError  // panics with an error value whose own Error method cannot be called (a typed nil pointer)
+	bReturnBadError // returns (no result and) an error value whose own Error method cannot be called (a typed nil pointer in the error interface)
 	numBehaviours
 )
 
-var behNames = [...]string{"right", "wrong", "error", "error+data", "panic(string)", "panic(error)", "panic-after-set", "nothing", "nil-receiver", "error+emptied", "emptied", "panic(error whose Error() panics)"}
+var behNames = [...]string{"right", "wrong", "error", "error+data", "panic(string)", "panic(error)", "panic-after-set", "nothing", "nil-receiver", "error+emptied", "emptied", "panic(error whose Error() panics)", "error whose Error() panics"}
 
 // hook behaviours
 const (
@@ -93,30 +94,32 @@ const (
 	pCustomReject    // caller-written predicate: always returns false, never reports anything itself
 	pCustomAcceptNil // caller-written predicate that also accepts "no error": always returns true
 	pMatchDotAll     // "^<beginning>.+$": met by a one-line text, unmet by a recovered panic (its text has newlines, '.' does not cross them)
+	pCustomFailNow   // caller-written predicate that signals its verdict through t.FailNow() alone and returns false
 	numPreds
 )
 
-var predNames = [...]string{"none", "AnyError", "Error(met)", "Error(unmet)", "Error(near-miss)", "HasPrefix(met)", "HasPrefix(unmet)", "HasPrefix(near-miss)", "HasSuffix(met)", "HasSuffix(unmet)", "HasSuffix(near-miss)", "Match(met)", "Match(unmet)", "Match(near-miss)", "Match(invalid)", "Error(text+1)", "Error(empty)", "HasPrefix(text+1)", "HasPrefix(empty)", "HasSuffix(1+text)", "HasSuffix(empty)", "custom(silent, accepts any error)", "custom(silent, rejects)", "custom(silent, accepts nil too)", "Match(.+$ must not cross newlines)"}
+var predNames = [...]string{"none", "AnyError", "Error(met)", "Error(unmet)", "Error(near-miss)", "HasPrefix(met)", "HasPrefix(unmet)", "HasPrefix(near-miss)", "HasSuffix(met)", "HasSuffix(unmet)", "HasSuffix(near-miss)", "Match(met)", "Match(unmet)", "Match(near-miss)", "Match(invalid)", "Error(text+1)", "Error(empty)", "HasPrefix(text+1)", "HasPrefix(empty)", "HasSuffix(1+text)", "HasSuffix(empty)", "custom(silent, accepts any error)", "custom(silent, rejects)", "custom(silent, accepts nil too)", "Match(.+$ must not cross newlines)", "custom(rejects through FailNow only)"}
 
 // caseSpec scripts one case: what its collaborators will do.
 type caseSpec struct {
-	constraint  int // 0, 1 OnlyMarshal, 2 OnlyUnmarshal
-	beh         int
-	before      int
-	after       int
-	pred        int
-	payload     string
-	nilValue    bool // unmarshal direction, pointer-typed T: the case lists a nil pointer as its value
-	nilIface    bool // interface-typed T: the case lists a nil interface value (not the first case)
-	adjust      bool // the case is listed with a wrong expectation and its (passing) Before hook puts it right
-	wrongKind   int  // how a "wrong" result differs from the right one
-	wildcard    bool // unmarshal, asymmetric TypeHelper: the listed value leaves the payload open
-	nilExpect   bool // unmarshal, slice and map kinds: the case lists a nil value (an empty non-nil result differs from it)
-	other       bool // interface-typed T: the value of this case is a *Q instead of a *P
-	emptyData   bool // marshal direction: the case expects no data at all ("" / nil); only a marshaler that returns (nil, nil) matches
-	adjustAfter bool // the case is listed with a wrong expectation (expected data for marshal, expected value for unmarshal) and its (passing) After hook puts it right before the assertions
-	adjustPred  bool // with adjust: the case is also listed with the wrong kind of expectation (a predicate where none belongs, or none where one belongs) and its Before hook installs the right one
-	nilData     bool // binary unmarshal helper: the case lists nil input data; the decoder must be handed nil, not an empty non-nil slice
+	constraint      int // 0, 1 OnlyMarshal, 2 OnlyUnmarshal
+	beh             int
+	before          int
+	after           int
+	pred            int
+	payload         string
+	nilValue        bool // unmarshal direction, pointer-typed T: the case lists a nil pointer as its value
+	nilIface        bool // interface-typed T: the case lists a nil interface value (not the first case)
+	adjust          bool // the case is listed with a wrong expectation and its (passing) Before hook puts it right
+	wrongKind       int  // how a "wrong" result differs from the right one
+	wildcard        bool // unmarshal, asymmetric TypeHelper: the listed value leaves the payload open
+	nilExpect       bool // unmarshal, slice and map kinds: the case lists a nil value (an empty non-nil result differs from it)
+	other           bool // interface-typed T: the value of this case is a *Q instead of a *P
+	emptyData       bool // marshal direction: the case expects no data at all ("" / nil); only a marshaler that returns (nil, nil) matches
+	adjustAfter     bool // the case is listed with a wrong expectation (expected data for marshal, expected value for unmarshal) and its (passing) After hook puts it right before the assertions
+	beforeSetsAfter bool // the case is listed without an After hook; its (passing) Before hook installs the After hook the script calls for
+	adjustPred      bool // with adjust: the case is also listed with the wrong kind of expectation (a predicate where none belongs, or none where one belongs) and its Before hook installs the right one
+	nilData         bool // binary unmarshal helper: the case lists nil input data; the decoder must be handed nil, not an empty non-nil slice
 }
 
 // ways a wrong result differs
@@ -205,6 +208,9 @@ func (c caseSpec) sig() string {
 	if c.adjustAfter {
 		nv += ",after-hook-adjusts-expectation"
 	}
+	if c.beforeSetsAfter {
+		nv += ",before-hook-installs-the-after-hook"
+	}
 	return fmt.Sprintf("constraint=%d,beh=%s,before=%s,after=%s,pred=%s%s", c.constraint, behNames[c.beh], hookNames[c.before], hookNames[c.after], predNames[c.pred], nv)
 }
 
@@ -281,6 +287,8 @@ type listRun struct {
 	failures []int
 	listFail int // failures recorded before any collaborator ran (interface check)
 	goexit   bool
+	exited   bool // FailNow ended the helper's goroutine
+	exitedAt int  // ... while this case was being processed: later cases were never reached
 	failNows int
 	msgs     []string
 	keepMsgs bool
@@ -334,6 +342,9 @@ func (r *recorder) FailNow() {
 		l.failures[l.lastSeen]++
 	}
 	if l.goexit {
+		if !l.exited {
+			l.exited, l.exitedAt = true, l.lastSeen
+		}
 		goexit()
 	}
 }
@@ -511,6 +522,8 @@ func doMarshal(caseNo int) ([]byte, error) {
 		panic(fmt.Errorf("boom-err %d%% %%d", i))
 	case bPanicBadError:
 		panic((*badErr)(nil))
+	case bReturnBadError:
+		return nil, (*badErr)(nil)
 	case bNothing:
 		return nil, nil
 	}
@@ -568,6 +581,8 @@ func doUnmarshal(data []byte, set func(caseNo int, payload string)) error {
 		panic(fmt.Sprintf("boom %d%% %%s /a%%2Fb", i))
 	case bPanicBadError:
 		panic((*badErr)(nil))
+	case bReturnBadError:
+		return (*badErr)(nil)
 	case bNothing:
 		return nil
 	case bErrorEmptied:
